@@ -255,55 +255,9 @@ theorem update_refines_present (ms : Nat) (a : Msg) (n : Nat) (v : Bytes) (hs : 
   rw [he] at hfit ⊢
   rw [updateOption_found ms a n v hs hv hh, if_pos hfit]
 
-/-- the API call that performs an abstract edit -/
-def callOf : Spec.Edit → Call
-  | .insert n v => .insertOption n v
-  | .update n v => .updateOption n v
-  | .remove n => .removeOption n
-  | .setToken t => .updateToken t
-
-/-- `coap_option_num_t` is 16 bits wide -/
-def editNumOk : Spec.Edit → Prop
-  | .insert n _ => n ≤ 65535
-  | .update n _ => n ≤ 65535
-  | .remove n => n ≤ 65535
-  | .setToken _ => True
-
-/-- the same edits applied to the abstract model, with M's return codes: an accepted edit is `Spec.applyEdit` (D13:
-Hop-Limit only where allowed), a refused one changes nothing — or is the open finding (`leftover`) -/
-inductive EditTrace : Msg → List Spec.Edit → List Nat → Msg → Prop
-  | nil (a : Msg) : EditTrace a [] [] a
-  | accepted {a a' : Msg} {e : Spec.Edit} {es : List Spec.Edit} {rc : Nat} {rcs : List Nat} (hop : Bool) :
-      rc ≠ 0 → (hop = true → hopDomain a (callOf e) = true) →
-      EditTrace (Spec.applyEdit hop a e) es rcs a' → EditTrace a (e :: es) (rc :: rcs) a'
-  | refused {a a' : Msg} {e : Spec.Edit} {es : List Spec.Edit} {rcs : List Nat} :
-      EditTrace a es rcs a' → EditTrace a (e :: es) (0 :: rcs) a'
-  | leftover {a a' : Msg} {e : Spec.Edit} {es : List Spec.Edit} {rcs : List Nat} :
-      hopDomain a (callOf e) = true →
-      EditTrace { a with opts := Spec.insertStable 16 [16] a.opts } es rcs a' → EditTrace a (e :: es) (0 :: rcs) a'
-
-theorem callSem_callOf (hop : Bool) (a : Msg) (e : Spec.Edit) : callSem hop a (callOf e) = Spec.applyEdit hop a e := by
-  cases e <;> rfl
-
-theorem editTrace_of_trace (es : List Spec.Edit) : ∀ (a a' : Msg) (rcs : List Nat),
-    Trace a (es.map callOf) rcs a' → EditTrace a es rcs a' := by
-  induction es with
-  | nil =>
-    intro a a' rcs h
-    cases h
-    exact EditTrace.nil a
-  | cons e es ih =>
-    intro a a' rcs h
-    rw [List.map_cons] at h
-    cases h with
-    | cons hstep htail =>
-      have ht := ih _ _ _ htail
-      cases hstep with
-      | accepted rc hop h1 h2 =>
-        rw [callSem_callOf] at ht
-        exact EditTrace.accepted hop h1 h2 ht
-      | refused => exact EditTrace.refused ht
-      | leftover h1 => exact EditTrace.leftover h1 ht
+/- `callOf` (the API call performing an abstract edit), `editNumOk` (option numbers are 16 bits wide) and `EditTrace`
+(the same edits applied to the abstract model, with M's return codes: `accepted` = `Spec.applyEdit`, `refused` = nothing
+changes, `leftover` = the open finding) are defined in Lemmas/EditTrace.lean. -/
 
 /-- **C04, M side, whole sequences**: any sequence of option insertions, updates, removals and token replacements,
 performed by M on the PDU representing `a` (any capacity — refusals included), never leaves the buffer and ends on the
